@@ -416,5 +416,11 @@ def rule_h(prog, rep):
     c16.rule_b(prog, px)
 
 
-RULES = [('C03.h', rule_h), ('C03.a', rule_a), ('C03.b', rule_b), ('C03.c', rule_c), ('C03.d', rule_d), ('C03.e', rule_e), ('C03.f', rule_f),
+def rule_i(prog, rep):
+    rep.rule('C03.i', 'T3+T7', "an unsubscribe / session end can only stop what was recorded: every registered subscriber is recorded in the table unsubscribe works from (= C07.e)")
+    from . import c07
+    c07.rule_e(prog, Proxy(rep, 'C03.i'))
+
+
+RULES = [('C03.h', rule_h), ('C03.i', rule_i), ('C03.a', rule_a), ('C03.b', rule_b), ('C03.c', rule_c), ('C03.d', rule_d), ('C03.e', rule_e), ('C03.f', rule_f),
          ('C03.g', rule_g)]
